@@ -42,6 +42,7 @@ import (
 	"github.com/zenon-network/go-zenon/chain/nom"
 	"github.com/zenon-network/go-zenon/common/db"
 	"github.com/zenon-network/go-zenon/common/types"
+	"github.com/zenon-network/go-zenon/vm/embedded/definition"
 	"github.com/zenon-network/go-zenon/rpc/api/subscribe"
 	rpcsrv "github.com/zenon-network/go-zenon/rpc/server"
 	"github.com/zenon-network/go-zenon/wallet"
@@ -76,7 +77,7 @@ func init() {
 }
 
 func c14Cases(tier string, seed int64) []string {
-	nm, nc, nr, np := 8, 2, 4, 4
+	nm, nc, nr, np := 8, 8, 4, 4
 	na := 60
 	if tier == "thorough" {
 		nm, nc, nr, np = 1200, 120, 160, 200
@@ -659,8 +660,8 @@ func c14ClonePatch(p db.Patch) db.Patch {
 func c14CheckContent(c *fw.C, n *simnet.Node, where string) bool {
 	content := n.Chain.GetNewMomentumContent()
 	c.Eval(1)
-	if len(content) > 100 {
-		c.Violation("momentum-content-exceeds-limit", map[string]interface{}{"where": where, "entries": len(content)})
+	if len(content) > chain.MaxAccountBlocksInMomentum {
+		c.Violation("momentum-content-exceeds-limit", map[string]interface{}{"where": where, "entries": len(content), "limit": chain.MaxAccountBlocksInMomentum})
 		return false
 	}
 	in := map[types.Hash]bool{}
@@ -707,7 +708,7 @@ func c14CheckContent(c *fw.C, n *simnet.Node, where string) bool {
 		}
 	}
 	size := "small"
-	if len(pool) > 100 {
+	if len(pool) > chain.MaxAccountBlocksInMomentum {
 		size = ">100-pooled"
 	}
 	c.Distinct(fmt.Sprintf("content/%s/batches=%d/entries=%d", size, min3(batches, 3), len(content)/25))
@@ -728,6 +729,18 @@ func c14Content(c *fw.C, caseID string) {
 	N := simnet.Open("N", base+"/N", simnet.MockGenesis(), g.PillarKeys)
 	defer N.Stop()
 	N.MustProduce(3)
+	// the per-momentum limit is a variable of the node software (its own tests lower it): every second case runs with a
+	// small seeded limit, which puts batches of every contract at the limit in every round
+	var caseIdx int
+	fmt.Sscanf(caseID, "content:%d", &caseIdx)
+	if caseIdx%2 == 1 {
+		old := chain.MaxAccountBlocksInMomentum
+		chain.MaxAccountBlocksInMomentum = []int{5, 3, 8, 13, 2, 30}[(caseIdx/2)%6]
+		defer func() { chain.MaxAccountBlocksInMomentum = old }()
+		c.SetAdd("per_momentum_limits_used", fmt.Sprint(chain.MaxAccountBlocksInMomentum))
+	} else {
+		c.SetAdd("per_momentum_limits_used", fmt.Sprint(chain.MaxAccountBlocksInMomentum))
+	}
 	w := simnet.NewWorkload(rand.New(rand.NewSource(r.Int63())), N)
 	w.ContractWeight = 70
 	// the content must be checked at the moment the pillar asks for it: inside production (after the contract
@@ -739,8 +752,8 @@ func c14Content(c *fw.C, caseID string) {
 		if err != nil {
 			return
 		}
-		if len(m.Content) > 100 {
-			c.Violation("momentum-content-exceeds-limit", map[string]interface{}{"where": "accepted momentum", "entries": len(m.Content)})
+		if len(m.Content) > chain.MaxAccountBlocksInMomentum {
+			c.Violation("momentum-content-exceeds-limit", map[string]interface{}{"where": "accepted momentum", "entries": len(m.Content), "limit": chain.MaxAccountBlocksInMomentum})
 		}
 		confirmed := map[types.Hash]bool{}
 		for _, hd := range m.Content {
@@ -799,6 +812,32 @@ func c14Content(c *fw.C, caseID string) {
 			}
 			c.Count("long_runs_pooled_above_the_limit", accepted)
 		}
+		if round%4 == 3 {
+			// one contract flooded: more calls to the token contract than a momentum holds, some whose receive is a
+			// batch (IssueToken with a supply: receive + mint descendant), some whose receive stands alone (Burn of one
+			// unit). After the next momentum the contract's own chain holds > 100 pooled blocks with batches at seeded
+			// positions around the limit: what is offered must stay one chain per account with whole batches.
+			sent := 0
+			us := c14Users()
+			for k := 0; k < 18 && sent < 125; k++ {
+				for _, u := range us {
+					var err error
+					if r.Intn(5) < 2 {
+						call := c13ValidCall(r, "Token", "IssueToken", u.Address, 1)
+						call.args[3] = big.NewInt(1 + r.Int63n(1e6))
+						call.args[4] = big.NewInt(2e6)
+						call.args[6] = true
+						_, err = N.Send(u, types.TokenContract, call.zts, call.amount, c13Pack(definition.ABIToken, "IssueToken", call.args...))
+					} else {
+						_, err = N.Send(u, types.TokenContract, types.ZnnTokenStandard, big.NewInt(1), c13Pack(definition.ABIToken, definition.BurnMethodName))
+					}
+					if err == nil {
+						sent++
+					}
+				}
+			}
+			c.Count("calls_flooding_one_contract", sent)
+		}
 		if !c14CheckContent(c, N, "after user burst") {
 			return
 		}
@@ -808,6 +847,10 @@ func c14Content(c *fw.C, caseID string) {
 			return
 		}
 		// now the pool holds contract receives (with refund/mint descendants) plus the user blocks that did not fit
+		if n := len(N.Chain.GetUncommittedAccountBlocksByAddress(types.TokenContract)); n > chain.MaxAccountBlocksInMomentum {
+			c.Count("pools_with_more_than_a_momentum_of_blocks_of_one_contract", 1)
+			c.Distinct("content/one-contract-above-the-limit")
+		}
 		if !c14CheckContent(c, N, "after production") {
 			return
 		}
